@@ -7,7 +7,7 @@ import time
 from concurrent.futures import ThreadPoolExecutor
 
 
-_ENV_KNOWN = {"TZ", "ZONEINFO", "TMPDIR", "HOME", "PATH", "PWD", "USER", "LOGNAME", "HOSTNAME", "LANG", "LC_ALL", "TERM", "SHELL",
+_ENV_KNOWN = {"TZ", "ZONEINFO", "TMPDIR", "HOME", "PATH", "PWD", "USER", "LOGNAME", "HOSTNAME", "TERM", "SHELL",
               "HTTP_PROXY", "HTTPS_PROXY", "NO_PROXY", "ALL_PROXY", "http_proxy", "https_proxy", "no_proxy", "all_proxy", "REQUEST_METHOD",
               "SSL_CERT_FILE", "SSL_CERT_DIR", "LOCALDOMAIN", "RES_OPTIONS", "HOSTALIASES", "RESOLV_HOST_CONF", "SYSTEMROOT", "NODE_OPTIONS",
               "XDG_CONFIG_HOME", "XDG_CACHE_HOME", "XDG_DATA_HOME", "XDG_RUNTIME_DIR", "COLUMNS", "LINES", "NO_COLOR"}
@@ -16,7 +16,16 @@ _ENV_KNOWN = {"TZ", "ZONEINFO", "TMPDIR", "HOME", "PATH", "PWD", "USER", "LOGNAM
 def _env_known(name):
     """Variables the harness itself or the Go standard library / toolchain reads."""
     return (name in _ENV_KNOWN or name.startswith("VERIF_") or name.startswith("GO") or name.startswith("CGO_")
-            or name.startswith("RAPID") or name.startswith("LC_") or name.startswith("NODE_"))
+            or name.startswith("RAPID") or name.startswith("NODE_"))
+
+
+def _env_value(name):
+    """What a consulted variable is set to for the second run: a locale whose case mapping differs from ASCII's for the
+    variables that name a locale (nothing in the Go test process reads them unless the code under test does), else 1."""
+    u = name.upper()
+    if u in ("LANG", "LANGUAGE") or u.startswith("LC_") or "LOCALE" in u or u.endswith("_LANG"):
+        return "tr_TR.UTF-8"
+    return "1"
 
 
 def _build_h09(ctx, mode="trace"):
@@ -266,11 +275,11 @@ def execute(ctx):
                 name, cmd, env, tmo, cwd = job
                 env = dict(env)
                 for n in unknown:
-                    env[n] = "1"
-                env["VERIF_EXTRA_ENV"] = "\x1f".join("%s=1" % n for n in unknown)
+                    env[n] = _env_value(n)
+                env["VERIF_EXTRA_ENV"] = "\x1f".join("%s=%s" % (n, _env_value(n)) for n in unknown)
                 cmd = [c for c in cmd if not c.startswith("-test.testlogfile=")]
                 rc, out = ctx["run"](cmd, cwd, env, tmo, os.path.join(work, "run.log"))
-                return name + "[env " + ",".join(unknown) + "=1]", rc, out
+                return name + "[env " + ",".join("%s=%s" % (n, _env_value(n)) for n in unknown) + "]", rc, out
             with ThreadPoolExecutor(max_workers=ctx["ncpu"]) as ex:
                 for name, rc, out in ex.map(again, jobs):
                     if rc != 0:
